@@ -351,12 +351,13 @@ impl Engine for C01 {
         "every document of the space is formatted through from_markdown/to_markdown, import/export and the LSP formatting request, with refs_extension \"\" and \".md\"; R1(output) must equal R1(input) (same words in the same kind of block, code bodies, link/image destinations, items, cells, front-matter), modulo the documented drops and refreshed titles. non-trivial = formatted text differs from the input".into()
     }
     fn bound(&self, tier: Tier) -> String {
-        doc_bound(tier)
+        format!("{}; ordered lists of 9..11, 99..101 (thorough: 999..1001) items with single-line and multi-block items", doc_bound(tier))
     }
     fn assumptions(&self) -> Vec<String> {
         doc_assumptions()
     }
     fn enumerate(&self, tier: Tier, emit: &mut dyn FnMut(&str)) {
+        space::ordered_list_docs(if tier == Tier::Thorough { &[9, 10, 11, 99, 100, 101, 999, 1000, 1001] } else { &[9, 10, 11, 99, 100, 101] }, emit);
         space::doc_space(tier, emit);
     }
     fn features(&self, case: &str) -> Vec<String> {
@@ -422,18 +423,13 @@ impl Engine for C02 {
         "every document of the space is formatted by each of four routes (to_markdown, import/export, update_key, LSP formatting); the result, formatted again by every route, must come back byte-for-byte, for refs_extension \"\" and \".md\". non-trivial = first formatting changed the text".into()
     }
     fn bound(&self, tier: Tier) -> String {
-        format!("{}; ordered lists of n in 8..12, 98..101, 999..1001 items", doc_bound(tier))
+        format!("{}; ordered lists of n in 8..12, 98..101, 999..1001 items (single-line items, and items with a nested list / second paragraph / code block)", doc_bound(tier))
     }
     fn assumptions(&self) -> Vec<String> {
         doc_assumptions()
     }
     fn enumerate(&self, tier: Tier, emit: &mut dyn FnMut(&str)) {
-        for n in [8usize, 9, 10, 11, 12, 98, 99, 100, 101, 999, 1000, 1001] {
-            emit(&space::scale_doc("ordered-items", n));
-            // multi-block items around the padding thresholds
-            let s: String = (0..n).map(|i| format!("{}. i{}\n\n    second{}\n\n", i + 1, i, i)).collect();
-            emit(&s);
-        }
+        space::ordered_list_docs(&[8, 9, 10, 11, 12, 98, 99, 100, 101, 999, 1000, 1001], emit);
         space::doc_space(tier, emit);
     }
     fn features(&self, case: &str) -> Vec<String> {
@@ -596,11 +592,7 @@ impl Engine for C07 {
         let thorough = tier == Tier::Thorough;
         space::heading_sequences(if thorough { 6 } else { 5 }, emit);
         let ns: &[usize] = if thorough { &[8, 9, 10, 11, 12, 98, 99, 100, 101, 999, 1000, 1001] } else { &[8, 9, 10, 11, 12, 98, 99, 100, 101] };
-        for n in ns {
-            emit(&space::scale_doc("ordered-items", *n));
-            let s: String = (0..*n).map(|i| format!("{}. i{}\n   - sub{}\n", i + 1, i, i)).collect();
-            emit(&s);
-        }
+        space::ordered_list_docs(ns, emit);
         if thorough {
             space::block_docs(5, 3, 4, false, emit);
             space::block_docs(4, 3, 4, true, emit);
